@@ -26,7 +26,7 @@ META = dict(
     outside="float32 rounding (translation by large offsets loses precision in float32: real arithmetic here); continua beyond the bound",
     stubs=["cvxpy/CBC/GLPK = contract stub", "numba.njit = identity", "np float arrays = object arrays of z3 reals"],
     assumptions=["c > 0", "delta_empty > 0", "alpha, beta >= 0", "segments longer than SEGMENT_PRECISION"],
-    cfg_budget_s=dict(quick=240, thorough=1700),
+    cfg_budget_s=dict(quick=240, thorough=900),
 )
 
 
